@@ -155,6 +155,7 @@ def model_text(s, fields):
 def check(case, acc=None):
     from hl7apy import core
     from hl7apy import parser as P
+    from hl7apy.exceptions import HL7apyException
     v, s, level = case['v'], case['s'], case['level']
     d = describe(case)
     out = []
@@ -254,7 +255,7 @@ def check(case, acc=None):
                 if extras & 16:
                     try:
                         link.validate(return_errors=True)
-                    except Exception:
+                    except HL7apyException:
                         pass        # validating a not-yet-existing child may be refused; it must still not write
             now = snapshot(root)
             if now != snap:
